@@ -205,25 +205,25 @@ func (c c04Seen) Write(e zapcore.Entry, _ []zapcore.Field) error {
 // ---------------------------------------------------------------- world
 
 type c04SinkRef struct {
-	b, j  int
-	rec   *c04Rec // nil for a file
-	file  string
-	mode  string // lines (Lock: one call per line) | calls (buffered: whole lines per call) | stream (file)
-	twin  int    // index of the sink that must have received the identical calls (-1: none)
+	b, j int
+	rec  *c04Rec // nil for a file
+	file string
+	mode string // lines (Lock: one call per line) | calls (buffered: whole lines per call) | stream (file)
+	twin int    // index of the sink that must have received the identical calls (-1: none)
 }
 
 type c04World struct {
-	recNames []string
-	base     *zap.Logger
-	children []*zap.Logger
-	sinks    []*c04SinkRef
-	bws      []*zapcore.BufferedWriteSyncer
-	clocks   []*c04Clock
-	closers  []func()
-	seen     c04Seen
-	errOut   *c04Rec
-	panics   atomic.Int64
-	firstP   atomic.Value
+	recNames  []string
+	base      *zap.Logger
+	children  []*zap.Logger
+	sinks     []*c04SinkRef
+	bws       []*zapcore.BufferedWriteSyncer
+	clocks    []*c04Clock
+	closers   []func()
+	seen      c04Seen
+	errOut    *c04Rec
+	panics    atomic.Int64
+	firstP    atomic.Value
 	oracleBuf []*bytes.Buffer // oracle world only: one private buffer per branch
 }
 
@@ -802,7 +802,7 @@ func c04Exec(raw json.RawMessage) Result {
 			return Result{Impl: child, Oracle: ok(), Nontrivial: true, Shape: shape + "/rerun"}
 		}
 		return Result{Impl: map[string]any{"panics": 0, "timeout": true, "sinks": []c04SinkRes{}},
-			Oracle: bad("C04:deadlock", "program did not finish within %v (also when re-run alone); goroutines:\n%s", concWD.limit(), truncStr(dump, 6000)),
+			Oracle:     bad("C04:deadlock", "program did not finish within %v (also when re-run alone); goroutines:\n%s", concWD.limit(), truncStr(dump, 6000)),
 			Nontrivial: true, Shape: shape}
 	}
 	o := ok()
